@@ -762,6 +762,9 @@ func (loc *Location) ListRules(ctx *Context, includeInherited bool) ([]string, e
 
 	loc.stats.IncErrors(err)
 	Inc(&loc.stats.TotalTime, timer.Stop())
+	if err != nil {
+		return nil, err
+	}
 	return acc, nil
 }
 
